@@ -217,6 +217,8 @@ structure Conn where
   compAllowed : Bool := false
   compDontReset : Bool := false
   smCallback : Bool := false
+  /-- the application's connection handler sends `<presence id='oc'/>` when it is told CONNECT -/
+  sendOnConnect : Bool := false
   -- connection
   state : CState := .disconnected
   negotiated : Bool := false
@@ -420,7 +422,10 @@ def connOpenStream (c : Conn) : Conn :=
 def prepareReset (c : Conn) (h : OpenH) : Conn := { c with resetParser := true, openHandler := h }
 
 /-- `_stream_negotiation_success` -/
-def negotiationSuccess (c : Conn) : Conn := notify { c with negotiated := true } .connect
+def negotiationSuccess (c : Conn) : Conn :=
+  let c1 := notify { c with negotiated := true } .connect
+  -- the application's connection handler may send at once (typically its presence)
+  if c1.sendOnConnect then sendStanza c1 (.user (b "presence") (some (b "oc"))) .user else c1
 
 /-! ### authentication (auth.c) -/
 
